@@ -82,14 +82,20 @@ def write_coqproject():
     return False
 
 
-def build_coq():
-    """Full .vo build of the development (no-op when up to date)."""
+def build_coq(targets=None):
+    """Full .vo build of what the running check needs: the cone of coq/Properties/<Cxx>.v (Cxx
+    taken from the script name) unless targets are given; everything when neither applies.
+    (setup.sh builds the whole development.)"""
+    if targets is None:
+        m = re.match(r"c(\d+)\.py$", os.path.basename(sys.argv[0]))
+        if m and os.path.exists(os.path.join(COQ, "Properties", "C%s.v" % m.group(1))):
+            targets = ["Properties/C%s.vo" % m.group(1)]
     with open(os.path.join(VERIF, ".coq.lock"), "w") as lf:
         fcntl.flock(lf, fcntl.LOCK_EX)
         changed = write_coqproject()
         if changed or not os.path.exists(os.path.join(COQ, "Makefile")):
             run(["coq_makefile", "-f", "_CoqProject", "-o", "Makefile"], cwd=COQ)
-        p = run(["timeout", "1500", "make", "-j16"], cwd=COQ, check=False)
+        p = run(["timeout", "1500", "make", "-j16"] + (targets or []), cwd=COQ, check=False)
         if p.returncode != 0:
             raise RuntimeError("Coq development does not build:\n" +
                                p.stdout.decode(errors="replace")[-3000:] +
